@@ -18,12 +18,15 @@ type G struct {
 	nums []uint32
 	strs [][]byte
 	bins [][]byte
+	// padWant: the body length an acknowledgement was padded to (0 = none); what is
+	// added to the packet afterwards is taken out of the padding again
+	padWant int
 }
 
 // NewG makes a generator with a budget of boundary-size values (16383..65535 bytes).
 func NewG(t *sim.Tape, thorough bool, big int) *G { return &G{T: t, Thorough: thorough, big: big} }
 
-var boundary = []int{127, 128, 129, 255, 256, 16383, 16384, 65534, 65535}
+var boundary = []int{127, 128, 129, 255, 256, 16383, 16384, 65534, 65535, 65533, 65532, 65531}
 
 // Len draws a string/binary length: mostly short, sometimes on a boundary.
 func (g *G) Len() int {
@@ -93,6 +96,14 @@ func (g *G) Filter() []byte {
 	}
 	if g.T.Bool(1, 4) {
 		return []byte(filterCorpus[g.T.Int(len(filterCorpus))])
+	}
+	if g.T.Bool(1, 12) {
+		// a filter into one of the trees that brokers and firmware know
+		s := topicCorpus[g.T.Int(len(topicCorpus))]
+		if g.T.Bool(1, 2) && len(s) > 0 && s[len(s)-1] != '/' {
+			s += "/#"
+		}
+		return []byte(s)
 	}
 	return g.Str(g.Len1())
 }
@@ -296,4 +307,68 @@ func (g *G) Varint() uint32 {
 		return []uint32{1, 127, 128, 16383, 16384, 2097151, 2097152, 268435454, 268435455}[t.Int(9)]
 	}
 	return uint32(1 + t.Uint(268435455))
+}
+
+// documents: payloads that are documents in a format software likes to "tidy"
+// (re-indent, compact, normalise line ends, trim): JSON with insignificant white
+// space, XML, line-oriented text with CRLF, trailing white space.
+var documents = []string{
+	"{ \"temperature\" : 21.5 ,\n  \"unit\" : \"C\" }",
+	"{\n\t\"id\": 7,\n\t\"tags\": [ \"a\", \"b\" ],\n\t\"nested\": { \"k\": null }\n}\n",
+	"[ 1, 2,   3 ]",
+	"  [\n  {\"a\": 1},\n  {\"a\": 2}\n]  ",
+	"{\"compact\":true}",
+	"{ \"text\" : \"white  space \\n inside a string stays\" }",
+	"\"just a string\"  ",
+	" 42 ",
+	"<?xml version=\"1.0\"?>\n<reading unit=\"C\">\n  <value> 21.5 </value>\n</reading>\n",
+	"<a><b/>  </a>",
+	"key = value\r\nother = thing\r\n",
+	"line one\nline two\n\n",
+	"trailing space   ",
+	"\ttabbed\t",
+	"a,b,c\r\n1,2,3\r\n",
+	"SGVsbG8sIFdvcmxkIQ==\n",
+	"%7B%22a%22%3A1%7D",
+	"---\nyaml: true\nlist:\n  - 1\n  - 2\n",
+}
+
+// Document returns a payload that is a small document (see documents),
+// sometimes repeated to a few hundred bytes.
+func (g *G) Document() []byte {
+	d := documents[g.T.Int(len(documents))]
+	if g.T.Bool(1, 6) && d[0] == '[' {
+		// a longer array of the same
+		s := "[ "
+		for i, n := 0, 2+g.T.Int(40); i < n; i++ {
+			if i > 0 {
+				s += " ,\n  "
+			}
+			s += "{ \"i\" : " + string(rune('0'+i%10)) + " }"
+		}
+		d = s + " ]"
+	}
+	return []byte(d)
+}
+
+// topicCorpus: topic names under the prefixes that brokers, cloud services and
+// widespread firmware give a meaning to ($-topics, vendor trees) - what code
+// that "knows" a peer keys its special cases on.
+var topicCorpus = []string{"$SYS/broker/uptime", "$SYS/broker/clients/connected", "$aws/things/t1/shadow/update", "$aws/events/presence/connected/c1", "$aws/rules/r/x",
+	"$iothub/twin/PATCH/properties/reported/", "devices/d1/messages/events/", "$dps/registrations/res/200", "$oc/devices/d/sys/properties/report", "$thing/up/property/p/d",
+	"$share/g/t", "$queue/t", "$SYS", "$", "$/", "$aws/", "$delayed/10/t", "$exclusive/t", "$local/t", "$retain/t", "$me/device/x",
+	"homeassistant/sensor/s1/config", "zigbee2mqtt/bridge/state", "tele/plug/LWT", "cmnd/plug/POWER", "stat/plug/RESULT", "shellies/announce", "owntracks/u/d", "spBv1.0/g/NBIRTH/n", "spBv1.0/STATE/h",
+	"v1/devices/me/telemetry", "application/1/device/0102/event/up", "/devices/d/events", "hermes/intent/x", "N/abc/system/0/Serial", "tasmota/discovery/x/config"}
+
+// Topic returns a topic name: one time in eight from topicCorpus (sometimes with
+// a generated tail), otherwise a generated string.
+func (g *G) Topic() []byte {
+	if g.T.Bool(1, 8) {
+		s := topicCorpus[g.T.Int(len(topicCorpus))]
+		if g.T.Bool(1, 3) {
+			s += "/" + string(g.Str(1+g.T.Int(8)))
+		}
+		return []byte(s)
+	}
+	return g.Str(g.Len1())
 }
